@@ -181,6 +181,18 @@ def dropped_by_edit(sn, rec) -> bool:
     return intr or cmd
 
 
+def injected_end_block_ended_method_block(rec) -> bool:
+    """Second symptom of the same defect: the injected Block holds its lock invisibly, a method Block acquires the lock
+    as well, and the injected `End block` then ends that *method* block (same tick: injected EndBlockNode completes,
+    a method BlockNode gets block_ended) while the injected Block itself is never ended."""
+    if not injected_block_never_ended(rec):
+        return False
+    tr = rec["trace"]
+    ticks = {e[0] for e in tr if e[3] == "EndBlockNode" and _neg(e[2]) and e[1] == "completed" and e[5] is True}
+    return any(e[3] == "BlockNode" and not _neg(e[2]) and e[1] == "block_ended" and e[5] is True and e[0] in ticks
+               for e in tr)
+
+
 def quiescence(rec) -> int:
     last = 1
     for e in rec["trace"]:
@@ -328,7 +340,9 @@ def check_case(case: dict, res: Result):
             # ---------------- differential on the method-line part
             got = method_part(rec, method_ids)
             if rec["errors"]:
-                viol.append(("C14.injection_caused_method_error", f"injected at tick {t} ({sn['kind']}): run paused by "
+                viol.append(("C14.injected_block_never_ends" if sn["kind"] == "block" and
+                             injected_end_block_ended_method_block(rec) else
+                             "C14.injection_caused_method_error", f"injected at tick {t} ({sn['kind']}): run paused by "
                              f"{rec['errors'][0]} although the reference run has no error", sub))
             elif got == ref_part:
                 res.count("differential_exact_equal")
